@@ -1334,9 +1334,11 @@ func runC17() {
 		}
 	}()
 	rng := rand.New(rand.NewSource(*seed))
-	nRandom, nEnvs, maxCoq := 60, 3, 2600
+	// corrEvery: every k-th corpus tree of the pointer / map environments goes to Coq (all of the struct one);
+	// corrRandom: random trees per (table, environment shape) that go to Coq
+	nRandom, nEnvs, corrEvery, corrRandom := 60, 3, 3, 10
 	if *tier == "thorough" {
-		nRandom, nEnvs, maxCoq = 700, 6, 24000
+		nRandom, nEnvs, corrEvery, corrRandom = 700, 6, 1, 400
 	}
 	envs := c17Envs(rng, nEnvs)
 	cc := newC17Corr()
@@ -1350,6 +1352,7 @@ func runC17() {
 			c17MapEnv = kind == "map"
 			g := newC17Gen(rng, c)
 			nodes := c.corpus()
+			nCorpus := len(nodes)
 			for i := 0; i < nRandom; i++ {
 				t := []reflect.Type{c17TMoney, c17TMoney, c17TInt, c17TBool, c17TStr, c17TMs, c17TXs, c17TAny, c17TAny, c17TAny}[rng.Intn(10)]
 				if n := g.gen(t, 1+rng.Intn(4)); n != nil && !c17HasNil(n) {
@@ -1357,7 +1360,7 @@ func runC17() {
 				}
 			}
 			seen := map[string]bool{}
-			for _, n := range nodes {
+			for ni, n := range nodes {
 				opSrc, exSrc := n.src(false), n.src(true)
 				if seen[opSrc] {
 					continue
@@ -1409,7 +1412,7 @@ func runC17() {
 				if len(rep.Samples) < 6 && over > 1 && rng.Intn(40) == 0 {
 					rep.Samples = append(rep.Samples, map[string]interface{}{"table": tb.Name, "operators": tb.Ops, "env": kind, "expr": opSrc, "explicit_form": exSrc})
 				}
-				if len(cases) < maxCoq || rng.Intn(10) == 0 {
+				if (ni < nCorpus && (kind == "struct" || ni%corrEvery == 0)) || (ni >= nCorpus && ni < nCorpus+corrRandom) {
 					if cs, ok := cc.corrCase(rep, tb.Name, tb.asMap(), tb.Ops, kind, opSrc); ok {
 						cases = append(cases, cs)
 					}
@@ -1421,7 +1424,7 @@ func runC17() {
 	for _, bad := range c17BadTargets {
 		for _, kind := range bad.Envs {
 			for _, fns := range [][]string{{bad.Fn}, {"Add", bad.Fn}, {bad.Fn, "Add"}} {
-				for _, src := range []string{"A + B", "(A + B) + C", "I + 1", "Ms[0] == A", "Id(A)"} {
+				for _, src := range []string{"(A + B) + C", "I + 1", "Id(A)"} {
 					order := [][]string{append([]string{"+"}, fns...)}
 					if cs, ok := cc.corrCase(rep, "bad:"+bad.Fn, map[string][]string{"+": fns}, order, kind, src); ok {
 						cases = append(cases, cs)
